@@ -51,6 +51,25 @@ fn check_case(c: &Case) -> Outcome {
         let text = up.op(op);
         let fm = form(op);
         o.class(fm);
+        if let UpdOp::DeleteWhere(qs) = op {
+            let ground = qs.len() >= 2 && qs.iter().all(|q| q.t.iter().all(|t| matches!(t, TT::C(_))) && !matches!(q.graph, Some(GName::Var(_))));
+            if ground {
+                let present = qs
+                    .iter()
+                    .filter(|q| {
+                        let lex = |t: &TT| if let TT::C(c) = t { c.lex() } else { String::new() };
+                        let tr = [lex(&q.t[0]), lex(&q.t[1]), lex(&q.t[2])];
+                        match &q.graph {
+                            None => model.default.contains(&tr),
+                            Some(GName::Iri(g)) => model.named.get(g).map_or(false, |s| s.contains(&tr)),
+                            _ => false,
+                        }
+                    })
+                    .count();
+                o.class("delete-where-shorthand:ground-block>=2");
+                o.class_if(present > 0 && present < qs.len(), "delete-where-shorthand:ground-block-partly-present");
+            }
+        }
         let pre = snapshot(&db);
         if pre != model {
             o.fail("c03.harness.model_drift", format!("step {i}: model and store differ before the step (harness bug)\nmodel {:?}\nstore {:?}", model, pre));
